@@ -50,15 +50,15 @@ theorem c10_step (r : Rep) (op : RepOp) (h : setsRev op = false) :
     cases h1 : r.isOpen <;> cases hm : r.mode <;> simp [rwWrites]
   | read off len =>
     unfold Rep.step rwWrites; simp only [rwWrites]; split <;> simp
-  | snap n user => unfold Rep.step rwWrites; simp only [rwWrites]; split <;> (try split) <;> (try split) <;> simp
+  | snap n user => unfold Rep.step rwWrites; simp only [rwWrites]; split <;> (try split) <;> (try split) <;> (try split) <;> simp
   | mark n => unfold Rep.step rwWrites; simp only [rwWrites]; split <;> (try split) <;> (try split) <;> (try split) <;> simp
   | coal n => unfold Rep.step rwWrites; simp only [rwWrites]; split <;> simp
   | rm n => unfold Rep.step rwWrites; simp only [rwWrites]; split <;> (try split) <;> (try split) <;> (try split) <;> simp
   | revert n => unfold Rep.step rwWrites; simp only [rwWrites]; split <;> (try split) <;> simp
-  | reopen pre => unfold Rep.step rwWrites; simp only [rwWrites]; split <;> simp
+  | reopen pre => unfold Rep.step rwWrites; simp only [rwWrites]; split <;> (try split) <;> simp
   | reload pre => unfold Rep.step rwWrites; simp only [rwWrites]; split <;> simp
   | close => unfold Rep.step rwWrites; simp only [rwWrites]; split <;> simp
-  | open_ pre => unfold Rep.step rwWrites; simp only [rwWrites]; split <;> simp
+  | open_ pre => unfold Rep.step rwWrites; simp only [rwWrites]; split <;> (try split) <;> simp
   | resize nb => unfold Rep.step rwWrites; simp only [rwWrites]; split <;> simp
   | punch on => simp [Rep.step, rwWrites]
   | apply f b n => simp [Rep.step, rwWrites]
@@ -70,6 +70,8 @@ theorem c10_step (r : Rep) (op : RepOp) (h : setsRev op = false) :
   | lunmap => unfold Rep.step rwWrites; simp only [rwWrites]; split <;> simp
   | rbPromote => simp [setsRev] at h
   | rbEnd => unfold Rep.step rwWrites; simp only [rwWrites]; split <;> simp
+  | maxChainSet n => simp [Rep.step, rwWrites]
+  | replace t s => unfold Rep.step rwWrites; simp only [rwWrites]; split <;> simp
   | clone n => unfold Rep.step rwWrites; simp only [rwWrites]; split <;> (try split) <;> simp
 
 /-- **C10 (exact).** Over any history without `SetRevisionCounter` — writes, mode changes,
